@@ -35,6 +35,7 @@ def main(argv=None):
         ap.error("property id required")
     mod = importlib.import_module(f"harness.props.{a.prop.lower()}")
     ctx = core.Ctx(a.prop, a.tier, a.seed)
+    ctx.replay_mode = bool(a.replay)      # a replay re-runs one stored case: it must not overwrite the check's evidence file
     try:
         if a.replay:
             data = json.load(open(a.replay))
